@@ -138,6 +138,10 @@ typedef void (*YieldInvariant)(World &, int);
 void registerYieldInvariant(YieldInvariant f);
 struct YieldInvariantRegistrar { YieldInvariantRegistrar(YieldInvariant f) { registerYieldInvariant(f); } };
 
+typedef void (*EndInvariant)(World &);
+void registerEndInvariant(EndInvariant f);
+struct EndInvariantRegistrar { EndInvariantRegistrar(EndInvariant f) { registerEndInvariant(f); } };
+
 // Plan generation (gen.cpp + engines): prop decides engine, config and armed oracles
 Json genPlan(const std::string &prop, uint64_t seed, const std::string &tier);
 typedef Json (*PlanGenerator)(const std::string &prop, uint64_t seed, const std::string &tier);
